@@ -12,6 +12,8 @@
 #include <sys/socket.h>
 #include <arpa/inet.h>
 #include <gio/gio.h>
+#include <sanitizer/lsan_interface.h>
+#include <sys/wait.h>
 #include "agent/agent.h"
 #include "agent/agent-priv.h"
 #include "agent/component.h"
@@ -482,15 +484,11 @@ static void do_op (char *op)
   else T ("?op %s", a[0]);
 }
 
-int main (void)
+static int run_case (char *line)
 {
-  static char line[1 << 20];
-  hc_init (); hc_catch_abort ();
-  if (!getenv ("SIM_DEBUG")) g_setenv ("G_MESSAGES_DEBUG", "", TRUE); else { g_setenv ("G_MESSAGES_DEBUG", "libnice", TRUE); nice_debug_enable (FALSE); }
-  while (fgets (line, sizeof line, stdin)) {
-    char *sv, *id = strtok_r (line, " \n", &sv); if (!id) continue;
+    char *sv, *id = strtok_r (line, " \n", &sv); if (!id) return 0;
     /* fresh world */
-    ctx = g_main_context_new (); vsocks = g_ptr_array_new (); inflight = NULL; pkt_serial = 0; next_port = 40000; nagents = 0; nservers = 0; memset (A, 0, sizeof A);
+    ctx = g_main_context_new (); g_main_context_push_thread_default (ctx); vsocks = g_ptr_array_new (); inflight = NULL; pkt_serial = 0; next_port = 40000; nagents = 0; nservers = 0; memset (A, 0, sizeof A);
     consec = g_hash_table_new_full (g_str_hash, g_str_equal, g_free, NULL); resp_tokens = g_hash_table_new_full (g_str_hash, g_str_equal, g_free, NULL); blackhole = g_hash_table_new_full (g_str_hash, g_str_equal, g_free, NULL);
     for (int i = 0; i < n_vif; i++) g_free (vif[i]); n_vif = 0;
     atk_period_us = 0; atk_next_us = G_MAXINT64; reqlog_n = 0; srv_loss = 0; for (int i = 0; i < MAXA; i++) { g_free (last_sdp[i]); last_sdp[i] = NULL; } for (int i = 0; i < 4; i++) { g_free (old_ufrag[i]); g_free (old_pwd[i]); old_ufrag[i] = old_pwd[i] = NULL; }
@@ -508,12 +506,37 @@ int main (void)
         for (int i = 0; i < nagents; i++) if (A[i].agent) { g_object_unref (A[i].agent); A[i].agent = NULL; }
         run_for (100);
         guint live = 0; for (guint i = 0; i < vsocks->len; i++) { VSock *v = vsocks->pdata[i]; if (!v->closed) live++; }
+        if (live) { /* asynchronous closing (TURN deallocation with its retransmissions) may still be in flight: let the main context drain */
+          run_for (15000); live = 0; for (guint i = 0; i < vsocks->len; i++) { VSock *v = vsocks->pdata[i]; if (!v->closed) live++; } }
         T ("end live_sockets=%u", live);
         HC_END;
       } else { HC_END; T ("ABORT"); }
     }
+    /* tear the simulated world down, so that whatever is still allocated now was leaked by the library */
+    for (GList *i = inflight; i; i = i->next) { VPkt *p = i->data; g_free (p->data); g_free (p); } g_list_free (inflight); inflight = NULL;
+    for (guint i = 0; i < vsocks->len; i++) { VSock *v = vsocks->pdata[i]; if (v->closed) g_free (v); } g_ptr_array_free (vsocks, TRUE);
+    g_hash_table_destroy (consec); g_hash_table_destroy (resp_tokens); g_hash_table_destroy (blackhole);
+    g_main_context_pop_thread_default (ctx); g_main_context_unref (ctx); ctx = NULL;
+    fflush (hc_out);
+    return aborted;
+}
+
+int main (void)
+{
+  static char line[1 << 20];
+  hc_init (); hc_catch_abort ();
+  if (!getenv ("SIM_DEBUG")) g_setenv ("G_MESSAGES_DEBUG", "", TRUE); else { g_setenv ("G_MESSAGES_DEBUG", "libnice", TRUE); nice_debug_enable (FALSE); }
+  int leakcheck = getenv ("SIM_LEAKCHECK") != NULL;
+  while (fgets (line, sizeof line, stdin)) {
+    if (!leakcheck) { run_case (line); fprintf (hc_out, "\n"); fflush (hc_out); continue; }
+    /* one process per scenario: whatever LeakSanitizer finds at its exit was leaked by this scenario */
+    fflush (hc_out); fflush (stderr);
+    pid_t pid = fork ();
+    if (pid == 0) { int ab = run_case (line); fflush (hc_out); if (ab) _exit (0); __lsan_do_leak_check (); _exit (0); }
+    int st = 0; waitpid (pid, &st, 0);
+    if (WIFEXITED (st) && WEXITSTATUS (st) == 23) fprintf (hc_out, " | 0 LEAK");
+    else if (!WIFEXITED (st) || WEXITSTATUS (st) != 0) fprintf (hc_out, " | 0 CRASH status=%d", st);
     fprintf (hc_out, "\n"); fflush (hc_out);
-    g_main_context_unref (ctx);
   }
   return 0;
 }
